@@ -179,7 +179,7 @@ BRAND_NEW_ENABLED = [True]
 def spurious_timeout(res, srcs):
     """the 1 s limit of the constexpr child can fire on a loaded machine although the body terminates
     (none of the request pool's constexpr bodies loops)"""
-    return "error" in res and "Timeout during evaluating constexpr" in str(res["error"].get("description", ""))
+    return "error" in res and bool(re.search(r"(?i)\btime[ -]?out\b|\btimed out\b", str(res["error"].get("description", ""))))
 
 
 def fixed_requests():
